@@ -18,9 +18,23 @@ from . import common
 from .vmtrace import TRACER, Conv, ProbeError, RecordingNames, tree_to_spec, build_op
 
 
-def make_host(name, beh, conv):
+def make_host(name, beh, conv, ctx=None):
     T = TRACER
-    if beh['h'] == 'probe':
+    if beh['h'] == 'eval':
+        # a host function that evaluates a program of its own on the same parser (re-entrant eval), with its own names mapping
+        # and budget, swallowing every Exception.  ctx is filled in by run_scenario (parser, names mappings, the parsed tree).
+        def f(*args):
+            T.emit({'e': 'p', 'name': name, 'args': [conv.deep(a) for a in args]})
+            parser = ctx['parser']
+            old = parser.parse_cache
+            parser.parse_cache = {beh['src'].rstrip(): ctx['trees'][name]}     # the tree the specification was given, not a re-parse
+            try:
+                return parser.eval(beh['src'], names=ctx['names'][beh['n']], max_ops_evaluated=beh['max'])
+            except Exception:
+                return None
+            finally:
+                parser.parse_cache = old
+    elif beh['h'] == 'probe':
         def f(*args):
             T.emit({'e': 'p', 'name': name, 'args': [conv.deep(a) for a in args]})
             if beh.get('raises'):
@@ -59,6 +73,8 @@ def host_spec(host, ret_refs):
         if b['h'] == 'probe':
             b2['ret'] = ret_refs[k]
             b2['raises'] = bool(b.get('raises'))
+        if b['h'] == 'eval':
+            b2 = {'h': 'eval', 'tree': b['_tree'], 'nid': 'n%d' % (b['n'] + 1), 'max': b['max']}
         out[k] = b2
     return out
 
@@ -108,7 +124,8 @@ def run_scenario(scn, tid, parser_factory=None, fresh=None):
             _shared_parser = SqParser()
         parser = _shared_parser
     host = scn.get('host', {})
-    hostfns = {k: make_host(k, b, conv) for k, b in host.items()}
+    hctx = {'parser': parser, 'names': None, 'trees': {}}
+    hostfns = {k: make_host(k, b, conv, hctx) for k, b in host.items()}
     names_py = []
     for d in scn.get('names', []):
         d = _materialize(d, {})
@@ -125,6 +142,12 @@ def run_scenario(scn, tid, parser_factory=None, fresh=None):
     names0 = {'n%d' % (i + 1): nm for i, nm in enumerate(names0_list)}
     counter = [0]
     nodeids = {}
+    hctx['names'] = names_py
+    for k, b in host.items():
+        if b['h'] == 'eval':
+            t = parser.parse(b['src'].rstrip())
+            hctx['trees'][k] = t
+            b['_tree'] = tree_to_spec(impl, t, conv, counter, nodeids)
     # capture the tree eval() obtains from parse()
     captured = {}
     orig_parse = parser.parse
@@ -133,6 +156,8 @@ def run_scenario(scn, tid, parser_factory=None, fresh=None):
 
     def capturing_parse(expr):
         t = orig_parse(expr)
+        if any(t is x for x in hctx['trees'].values()):
+            return t                      # the nested evaluation of a host function: not the call's own program
         captured['tree'] = t
         if t is not None:
             if id(t) not in treespec:
@@ -254,7 +279,8 @@ def _run_calls(scn, tid, impl, conv, parser, orig_parse, captured, hostfns, name
             tree = captured['spec']
         else:
             tree = {'k': 'parsefail'}
-        nev = sum(1 for e in evs if e['e'] == 'c') + sum(1 for e in evs if e['e'] == 'nc')
+        # node evaluations of THIS call: not those of evaluations nested in it by a host function (VM records created later than its own)
+        nev = sum(1 for e in evs if e['e'] == 'c' and e.get('vm', 0) <= nvm_before + 1) + sum(1 for e in evs if e['e'] == 'nc')
         # states in vm order
         states = sorted(((v, s) for s, v in ((s, conv.vm[id(s)]) for s in conv.keep if id(s) in conv.vm)), key=lambda p: p[0])
         depth = []
